@@ -11,7 +11,9 @@ package main
 // call: free variables captured by reference read and write the creating
 // frame's cells, a method value (`d.ReadData`) calls the method with the
 // receiver it was bound to.  A value that is not known on the path is left
-// alone (the call is opaque, as before).
+// alone (the call is opaque, as before); a closure that runs out of sight
+// (handed to code that is not followed, or not stepped into) makes the cells it
+// captured unknown.
 
 import (
 	"strings"
@@ -36,7 +38,7 @@ func (p *PX) recordClosure(mc *ssa.MakeClosure, fr *pxFrame, st *pxState) {
 	if !ok {
 		return
 	}
-	c := &pxClosure{fn: fn}
+	c := &pxClosure{fn: fn, mc: mc, maker: fr}
 	for _, b := range mc.Bindings {
 		c.binds = append(c.binds, p.term(b, fr, st))
 		c.cells = append(c.cells, p.cellKeyOf(b, fr))
@@ -47,18 +49,47 @@ func (p *PX) recordClosure(mc *ssa.MakeClosure, fr *pxFrame, st *pxState) {
 	p.closures[p.term(mc, fr, st).key] = c
 }
 
-// isFuncValue: t denotes a function known on this path.
-func (p *PX) isFuncValue(t *Term) bool {
-	if t == nil || t.K != TLeaf {
-		return false
+// cellOf: the variable cell an address designates: a local Alloc of fr, or —
+// inside a function literal — the captured variable of the frame that made it.
+func (p *PX) cellOf(addr ssa.Value, fr *pxFrame) (string, bool) {
+	if c := p.cellKeyOf(addr, fr); c != "" {
+		return c + "*", true
 	}
-	if _, ok := t.V.(*ssa.Function); ok {
-		return true
+	return "", false
+}
+
+// boundValue: the (value, frame) a free variable stands for, following chains
+// of nested function literals.
+func (p *PX) boundValue(v ssa.Value, fr *pxFrame) (ssa.Value, *pxFrame) {
+	for depth := 0; depth < 8; depth++ {
+		fv, ok := v.(*ssa.FreeVar)
+		if !ok || fr.clo == nil {
+			return v, fr
+		}
+		i := 0
+		for i < len(fr.fn.FreeVars) && fr.fn.FreeVars[i] != fv {
+			i++
+		}
+		if i >= len(fr.clo.mc.Bindings) || i >= len(fr.fn.FreeVars) {
+			return v, fr
+		}
+		v, fr = fr.clo.mc.Bindings[i], fr.clo.maker
 	}
-	if _, ok := t.V.(*ssa.MakeClosure); ok {
-		return p.closures[t.key] != nil
+	return v, fr
+}
+
+// killCaptured forgets what the path knows about the variables a closure has
+// captured by reference (the closure runs out of sight).
+func (p *PX) killCaptured(c *pxClosure, st *pxState) {
+	if c == nil {
+		return
 	}
-	return false
+	for _, cell := range c.cells {
+		if cell != "" {
+			delete(st.vals, cell+"*")
+			delete(st.bseq, cell+"*")
+		}
+	}
 }
 
 // funcValueCallee resolves a dynamic call whose function value is known on the
@@ -77,7 +108,8 @@ func (p *PX) funcValueCallee(x *ssa.Call, fr *pxFrame, st *pxState) (*ssa.Functi
 	}
 	switch v := ft.V.(type) {
 	case *ssa.Function:
-		if v.Blocks != nil && len(v.FreeVars) == 0 {
+		// (a library function is not stepped into; the call is recorded under its name)
+		if len(v.FreeVars) == 0 {
 			return v, nil, nil
 		}
 	case *ssa.MakeClosure:
